@@ -11,6 +11,7 @@ import (
 	"encoding/json"
 	"fmt"
 	"runtime"
+	"sort"
 	"strings"
 	"sync/atomic"
 	"testing"
@@ -45,6 +46,7 @@ const (
 	CancelDeadline
 	CancelExternal
 	CancelInTask // the task CancelTask cancels from inside its body
+	CancelInElem // the CancelOrd-th started element call of collection CancelTask cancels from inside its body
 )
 
 // CollD fixes one collection of a Parallel execution.
@@ -74,6 +76,11 @@ type ExecD struct {
 	Barrier    bool           `json:"barrier,omitempty"`
 	HoldTask   int            `json:"hold_task,omitempty"` // C11: task id+1 held until predicate WatchPred was evaluated
 	WatchPred  int            `json:"watch_pred,omitempty"`
+	CancelOrd  int            `json:"cancel_ord,omitempty"`
+	// Nest: the body of task id runs another directive (on the worker
+	// goroutine, with a context derived from the one the task received)
+	// before it ends.
+	Nest map[int]*ExecD `json:"nest,omitempty"`
 }
 
 // Desc is the complete input of one simulated run.
@@ -103,9 +110,11 @@ const (
 	EvProbe
 	EvCancel
 	EvRet
+	EvCall    // a nested directive is about to be called
+	EvCleanup // the harness releases the context's resources after the directive returned (cancels derived contexts)
 )
 
-var evNames = [...]string{"", "task-start", "task-end", "pred-start", "pred-end", "elem-start", "elem-end", "endhook-start", "endhook-end", "arg-probe", "cancel", "returned"}
+var evNames = [...]string{"", "task-start", "task-end", "pred-start", "pred-end", "elem-start", "elem-end", "endhook-start", "endhook-end", "arg-probe", "cancel", "returned", "nested-call", "ctx-cleanup"}
 
 type Ev struct {
 	Seq  int
@@ -204,8 +213,12 @@ type memoEnt struct {
 // execRun is the per-execution harness state; touched only from //go:norace
 // methods.
 type execRun struct {
-	idx    int
-	d      *ExecD
+	idx      int
+	parent   *execRun
+	children map[int]*execRun // task id -> nested execution (read-only while running)
+	started  bool
+	callSeq  int
+	d        *ExecD
 	prog   *progen.Prog
 	fn     rt.ProgFunc
 	r      *runner
@@ -344,12 +357,21 @@ func (x *execRun) setCtx(ctx context.Context, cancel context.CancelFunc) {
 func (x *execRun) getCancel() context.CancelFunc { return x.cancel }
 
 //go:norace
+func (x *execRun) getCtx() context.Context { return x.ctx }
+
+//go:norace
+func (x *execRun) setStarted(seq int) { x.started, x.callSeq = true, seq }
+
+//go:norace
 func (x *execRun) setReturned(res []uint64, err, ctxErr error, propagated any) {
 	x.res, x.err, x.ctxErrAtRet, x.propagated, x.returned = res, err, ctxErr, propagated, true
 }
 
 //go:norace
 func (x *execRun) isReturned() bool { return x.returned }
+
+//go:norace
+func (x *execRun) isStarted() bool { return x.started }
 
 //go:norace
 func (x *execRun) setCallerSlot(i int) { x.callerSlot = i }
@@ -387,6 +409,18 @@ func (h *hh) body(kind, id, ord int, ctx context.Context, startKind, endKind int
 	}
 	if kind == 0 && x.d.HoldTask == id+1 {
 		sim.Hold(engine.HoldFlag, flagPredSeen(x.idx), 0)
+	}
+	if kind == 0 {
+		if ch := x.children[id]; ch != nil {
+			pctx := ctx
+			if pctx == nil {
+				pctx = x.getCtx()
+			}
+			x.r.runExec(ch, pctx)
+			if sim.Aborted() {
+				return nil
+			}
+		}
 	}
 	if stuck {
 		sim.Hold(engine.HoldFlag, flagReturned(x.idx), 0)
@@ -529,6 +563,12 @@ func (h *hh) Elem(id int, ctx context.Context, a int64, b uint64) error {
 	}
 	if sim.Aborted() {
 		return nil
+	}
+	if x.d.CancelMode == CancelInElem && x.d.CancelTask == id && x.d.CancelOrd == ord {
+		x.log(EvCancel, id, ord, nil, 0, 0)
+		x.count(&x.cancelFired)
+		x.getCancel()()
+		sim.Yield(engine.HsAfter)
 	}
 	x.log(EvElemEnd, id, ord, nil, a, b)
 	x.leave()
@@ -696,11 +736,19 @@ func (t *recTask) TaskDone(context.Context, time.Duration) { t.e.rec(EmTaskDone,
 
 // ---- running ----
 
-func (r *runner) caller(i int) {
-	x := r.execs[i]
+func (r *runner) caller(i int) { r.runExec(r.execs[i], context.Background()) }
+
+// runExec calls one directive: from a harness goroutine of its own (top
+// level) or from inside a task body of another execution (nested; then the
+// caller is a worker goroutine of the outer scheduler and parent is the
+// context that task received).
+func (r *runner) runExec(x *execRun, parent context.Context) {
+	i := x.idx
 	sim := r.sim
 	d := x.d
-	base := context.WithValue(context.Background(), ctxKey{}, x.token)
+	oldTag := sim.SwapTag(i)
+	x.setStarted(x.log(EvCall, -1, 0, nil, 0, 0))
+	base := context.WithValue(parent, ctxKey{}, x.token)
 	ctx, cancel := context.WithCancel(base)
 	if d.CancelMode == CancelDeadline {
 		dl := time.Duration(d.DelaySteps)*engine.Q + time.Duration(2*(d.DelaySteps%1000)+1)
@@ -734,6 +782,7 @@ func (r *runner) caller(i int) {
 		res, err = x.fn(uctx, h, d.Params)
 	}()
 	ctxErr := ctx.Err()
+	sim.SwapTag(oldTag)
 	sim.Yield(engine.HsRet)
 	if sim.Aborted() {
 		return
@@ -742,6 +791,7 @@ func (r *runner) caller(i int) {
 	x.setReturned(res, err, ctxErr, propagated)
 	sim.SetFlag(flagReturned(i))
 	sim.SetFlag(flagPredSeen(i)) // release a provider still held for the predicate-promptness probe
+	x.log(EvCleanup, -1, 0, nil, 0, 0)
 	cancel()
 }
 
@@ -788,14 +838,13 @@ func Exec(t *testing.T, d *Desc, replay, keepTrace bool, states map[uint64]struc
 	res := &Result{D: d, Sim: sim}
 	r := &runner{sim: sim, d: d, shared: cff.EmitterStack(&sinkEmitter{}, &sinkEmitter{}, &sinkEmitter{})}
 	emitters := false
-	for i := range d.Execs {
-		ed := &d.Execs[i]
+	newExec := func(ed *ExecD, parent *execRun) *execRun {
 		pr := programs[ed.Prog]
 		nevents := 4096
 		for _, c := range ed.Colls {
 			nevents += 2 * len(c.Vals)
 		}
-		x := &execRun{idx: i, d: ed, prog: pr.P, fn: pr.Fn, r: r, token: new(int), events: make([]Ev, nevents),
+		x := &execRun{d: ed, parent: parent, prog: pr.P, fn: pr.Fn, r: r, token: new(int), events: make([]Ev, nevents),
 			memo: make([]memoEnt, 0, 512), states: make([]cff.SchedulerState, 256)}
 		for k := range x.em {
 			x.em[k] = make([]EmEv, 1024)
@@ -803,7 +852,38 @@ func Exec(t *testing.T, d *Desc, replay, keepTrace bool, states map[uint64]struc
 		if (pr.P.Flow != nil && pr.P.Flow.Emitters > 0) || (pr.P.Par != nil && pr.P.Par.Emitters > 0) {
 			emitters = true
 		}
+		return x
+	}
+	// top-level executions occupy indices 0..n-1; nested ones follow in
+	// depth-first order (children by ascending task id)
+	for i := range d.Execs {
+		x := newExec(&d.Execs[i], nil)
+		x.idx = i
 		r.execs = append(r.execs, x)
+	}
+	var addChildren func(x *execRun)
+	addChildren = func(x *execRun) {
+		var ids []int
+		for id := range x.d.Nest {
+			ids = append(ids, id)
+		}
+		sort.Ints(ids)
+		for _, id := range ids {
+			ch := newExec(x.d.Nest[id], x)
+			ch.idx = len(r.execs)
+			r.execs = append(r.execs, ch)
+			if x.children == nil {
+				x.children = map[int]*execRun{}
+			}
+			x.children[id] = ch
+			addChildren(ch)
+		}
+	}
+	for i := range d.Execs {
+		addChildren(r.execs[i])
+	}
+	if len(r.execs) > 16 {
+		panic("too many executions in one run")
 	}
 	res.X = r.execs
 	sim.IdleMax = 3
@@ -833,11 +913,17 @@ func Exec(t *testing.T, d *Desc, replay, keepTrace bool, states map[uint64]struc
 				sim.Go(100+i, func() { r.canceller(i) })
 			}
 		}
+		for i := len(d.Execs); i < len(r.execs); i++ {
+			i := i
+			if r.execs[i].d.CancelMode == CancelExternal {
+				sim.Go(100+i, func() { r.canceller(i) })
+			}
+		}
 		sim.Drive()
 		res.Quiesced = !sim.OverBudget && sim.Invalid == ""
 		res.AllReturned = true
 		for _, x := range r.execs {
-			if !x.isReturned() {
+			if x.isStarted() && !x.isReturned() {
 				res.AllReturned = false
 			}
 		}
